@@ -68,6 +68,8 @@ type Options struct {
 	Coinomics *coinomicstypes.Params
 	// Gov: short voting period and tiny deposit when set.
 	FastGov bool
+	// BondDenom of the staking module (default: Denom).
+	BondDenom string
 	// SlashWindow sets a small signed-blocks window (for downtime slashing) when > 0.
 	SlashWindow int64
 	// Patch lets a driver edit the genesis further.
@@ -265,13 +267,17 @@ func New(o Options) *World {
 		delegations = append(delegations, stakingtypes.NewDelegation(w.Addrs[0], valAddr, sdk.NewDecFromInt(o.ValTokens)))
 	}
 	sp := stakingtypes.DefaultParams()
-	sp.BondDenom = Denom
+	bondDenom := Denom
+	if o.BondDenom != "" {
+		bondDenom = o.BondDenom
+	}
+	sp.BondDenom = bondDenom
 	sp.UnbondingTime = 3 * 24 * time.Hour
 	if o.UnbondingTime > 0 {
 		sp.UnbondingTime = o.UnbondingTime
 	}
 	gs[stakingtypes.ModuleName] = cdc.MustMarshalJSON(stakingtypes.NewGenesisState(sp, validators, delegations))
-	bonded := sdk.NewCoin(Denom, o.ValTokens.MulRaw(int64(o.NumVals)))
+	bonded := sdk.NewCoin(bondDenom, o.ValTokens.MulRaw(int64(o.NumVals)))
 	balances = append(balances, banktypes.Balance{
 		Address: authtypes.NewModuleAddress(stakingtypes.BondedPoolName).String(),
 		Coins:   sdk.NewCoins(bonded),
